@@ -81,7 +81,7 @@ def _run_chunk(jobs, tag, timeout):
         if os.path.exists(of):
             os.remove(of)
         # watchdog: a single job that produces no END marker for `job_timeout` seconds is hung
-        job_timeout = float(os.environ.get("VERIF_JOB_TIMEOUT", "120"))
+        job_timeout = float(os.environ.get("VERIF_JOB_TIMEOUT", "40"))
         import threading
         proc = subprocess.Popen([FVH, "run", "--jobs", jf, "--out", of], stdout=subprocess.PIPE, stderr=subprocess.PIPE, text=True)
         lines, errbuf = [], []
@@ -147,6 +147,10 @@ def _run_chunk(jobs, tag, timeout):
         results.append((cj, None, crash))
         done.add(cj["id"])
         todo = [j for j in todo if j["id"] not in done]
+        if rnd >= 4:
+            # the crate keeps crashing / hanging: four replayable failures per chunk are enough
+            log("  %s: %d jobs not run after repeated crashes/hangs" % (tag, len(todo)))
+            break
         for f_ in (jf, of):
             pass
     return results
